@@ -12,10 +12,12 @@ for i in range(1,21):
     thms=[]
     for fn in files:
         src=open(fn).read()
-        ns=None; sec=[]; default='R' if pid=='C14' else 'S'
+        ns=None; sec=[]; inner=[]; default='R' if pid=='C14' else 'S'
         for line in src.split('\n'):
             m=re.match(r'\s*namespace\s+(\S+)',line)
             if m and ns is None: ns=m.group(1)
+            elif m: inner.append(m.group(1))     # a namespace opened inside the file's namespace
+            if re.match(r'\s*end\s+\S+',line) and inner and line.split()[1]==inner[-1]: inner.pop()
             m=re.match(r'\s*section\s*(\S*)',line)
             if m: sec.append(m.group(1))
             if re.match(r'\s*end\s+\S+',line) and sec and line.split()[1]==sec[-1]: sec.pop()
@@ -28,7 +30,7 @@ for i in range(1,21):
                 for s_ in reversed(sec):
                     if s_ in CLS: cls=CLS[s_]; break
                 if cls=='example': continue
-                thms.append({"name":f"{ns}.{name}","class":cls,"partial":name.endswith('_partial')})
+                thms.append({"name":".".join([ns]+inner+[name]),"class":cls,"partial":name.endswith('_partial')})
     e=ob.setdefault(pid,{})
     e['theorems']=thms
     e.setdefault('modules',[])
